@@ -2,6 +2,7 @@
 From Coq Require Import NArith.
 Local Open Scope N_scope.
 Definition c_SQFS_BLK_DONT_COMPRESS : N := 1.
+Definition c_SQFS_BLK_DONT_HASH : N := 2.
 Definition c_SQFS_BLK_DONT_FRAGMENT : N := 4.
 Definition c_SQFS_BLK_DONT_DEDUPLICATE : N := 8.
 Definition c_SQFS_BLK_IGNORE_SPARSE : N := 16.
